@@ -47,27 +47,27 @@ type LoopContract struct {
 }
 
 type FuncContract struct {
-	Pkg       string // package import path
-	Key       string // "(*T).M" or "F"
-	Requires  []*Clause
-	Ensures   []*Clause
-	Assigns   []string // lvalue patterns; nil = unspecified (callers havoc everything)
-	HasAssign bool
-	Loops     map[int]*LoopContract
-	Trusted   bool
-	NoInline  bool
-	Pure      bool     // callee has no heap effects (assigns nothing), result unconstrained unless ensures
-	Props     []string // properties the safety obligations of this function belong to
-	TermProps []string // properties the termination obligations belong to
-	AllocProp []string // properties that allocation-budget obligations belong to
-	AllocBound string  // spec expression: upper bound for every make() length in this function
-	Splits    []Split
-	Unroll    map[int]int
-	File      string
-	Line      int
-	Opaque    []string // callee keys that must not be inlined (treated as havoc)
-	Reveal    []string // recursive spec functions whose definition is visible in this task
-	Timeout   int
+	Pkg        string // package import path
+	Key        string // "(*T).M" or "F"
+	Requires   []*Clause
+	Ensures    []*Clause
+	Assigns    []string // lvalue patterns; nil = unspecified (callers havoc everything)
+	HasAssign  bool
+	Loops      map[int]*LoopContract
+	Trusted    bool
+	NoInline   bool
+	Pure       bool     // callee has no heap effects (assigns nothing), result unconstrained unless ensures
+	Props      []string // properties the safety obligations of this function belong to
+	TermProps  []string // properties the termination obligations belong to
+	AllocProp  []string // properties that allocation-budget obligations belong to
+	AllocBound string   // spec expression: upper bound for every make() length in this function
+	Splits     []Split
+	Unroll     map[int]int
+	File       string
+	Line       int
+	Opaque     []string // callee keys that must not be inlined (treated as havoc)
+	Reveal     []string // recursive spec functions whose definition is visible in this task
+	Timeout    int
 }
 
 type Def struct {
